@@ -227,13 +227,18 @@ func program(ctx context.Context, db *sql.DB, srv *memsql.Server, sc scenario) (
 			}
 			e = tx
 			outs = append(outs, outcome{"begun", ""})
-		case "commit", "rollback":
+		case "commit", "rollback", "commitf":
 			if tx == nil {
 				outs = append(outs, outcome{"", "no-tx"})
 				continue
 			}
 			var err error
-			if k == "commit" {
+			if k == "commitf" {
+				// the database fails the COMMIT (deadlock found at commit) and rolls the transaction back
+				srv.AddFault(memsql.Fault{Class: "commit", Err: &mysql.MySQLError{Number: 1213, Message: "Deadlock found when trying to get lock; try restarting transaction"}})
+				err = tx.Commit()
+				srv.ClearFaults()
+			} else if k == "commit" {
 				err = tx.Commit()
 			} else {
 				err = tx.Rollback()
@@ -375,7 +380,7 @@ func main() {
 			case "begin", "beginro", "beginser":
 				t.Add("Begin", "opt", kind, "sameErr", p.err == b.err, "sig", sig)
 				intxStep = true
-			case "commit", "rollback":
+			case "commit", "rollback", "commitf":
 				t.Add("EndTx", "how", kind, "sameErr", p.err == b.err, "sig", sig+":perr="+p.err+":berr="+b.err)
 				intxStep = false
 			default:
